@@ -1725,3 +1725,32 @@ class AsynchronousMemory(Kind):
 
     def outs(self, p, st, iv, iw, ow):
         raise NotImplementedError('AsynchronousMemory has no reference model')
+
+
+# --- large structural library blocks without a catalogue model (their functions are checked in C13/C14);
+#     used where the oracle is another real system (C04 twin, C01 co-simulation)
+
+def _fpkind(name, nin, outw, mk):
+    class G(Kind):
+        pass
+    G.name = name
+    G.tags = ('extra', 'big')
+    G.weight = 0.3
+
+    def plan(self, rng, pool):
+        return {}, [pool.pick(32)[0] for _ in range(nin)], list(outw)
+
+    def build(self, parent, nm, ins, outs, p):
+        return mk(parent, nm, ins, outs)
+
+    def outs(self, p, st, iv, iw, ow):
+        raise NotImplementedError('%s has no catalogue model' % name)
+    G.plan, G.build, G.outs = plan, build, outs
+    register(G)
+
+
+_fpkind('FPAdder_SP', 2, [32], lambda p, n, i, o: py4hw.FPAdder_SP(p, n, i[0], i[1], o[0]))
+_fpkind('FPMult_SP', 2, [32], lambda p, n, i, o: py4hw.FPMult_SP(p, n, i[0], i[1], o[0]))
+_fpkind('FPComparator_SP', 2, [1, 1, 1], lambda p, n, i, o: py4hw.FPComparator_SP(p, n, i[0], i[1], o[0], o[1], o[2]))
+_fpkind('InttoFP_SP', 1, [32, 1], lambda p, n, i, o: py4hw.InttoFP_SP(p, n, i[0], o[0], o[1]))
+_fpkind('FPtoInt_SP', 1, [32, 1, 1, 1], lambda p, n, i, o: py4hw.FPtoInt_SP(p, n, i[0], o[0], o[1], o[2], o[3]))
